@@ -119,3 +119,28 @@ func TestFixed_D12_format_number(t *testing.T) {
 	}()
 	_ = AgainstSchema(&sch, json.Number("1"), strfmt.Default)
 }
+
+// D8 in the schemaPropsValidator helpers (not repaired): validateAnyOf / validateOneOf / validateAllOf / validateNot
+// nil the child's entry only after the child's Validate has returned; when the child panics it has already redeemed
+// itself, and the deferred redeemChildren of schemaPropsValidator.Validate redeems it a second time.
+func TestFixed_D8_props_double_redeem(t *testing.T) {
+	var sch spec.Schema
+	if err := json.Unmarshal([]byte(`{"anyOf":[{"type":"string","format":"boom"}]}`), &sch); err != nil {
+		t.Fatal(err)
+	}
+	for i := 0; i < 64; i++ {
+		_ = pools.poolOfSchemaValidators.BorrowValidator()
+	}
+	func() {
+		defer func() { _ = recover() }()
+		_ = AgainstSchema(&sch, "x", kfPanicRegistry{strfmt.Default})
+	}()
+	seen := map[*SchemaValidator]bool{}
+	for i := 0; i < 8; i++ {
+		v := pools.poolOfSchemaValidators.BorrowValidator()
+		if seen[v] {
+			t.Fatalf("the pool handed out the same *SchemaValidator twice after a recovered panic inside anyOf: it was redeemed twice")
+		}
+		seen[v] = true
+	}
+}
